@@ -200,6 +200,28 @@ def search_counterexample(ctx, ir, e, tries=300):
     return None
 
 
+def spec_fits_one_type(e):
+    """The property's own clause, evaluated on the implementation's annotations: does every run-time
+    operation node of e fit ONE of int64_t / uint64_t together with all of its integer operands?"""
+    from compiler.util import ir_util
+    if e.which_expression != "function" or ir_util.is_constant_type(e.type):
+        return True
+    for a in e.function.args:
+        if not spec_fits_one_type(a):
+            return False
+    rs = []
+    for c in [e] + list(e.function.args):
+        if c.type.which_type == "integer":
+            lo, hi = c.type.integer.minimum_value, c.type.integer.maximum_value
+            if lo in ("-infinity", "infinity") or hi in ("-infinity", "infinity"):
+                return False
+            rs.append((int(lo), int(hi)))
+    if not rs:
+        return True
+    lo, hi = min(r[0] for r in rs), max(r[1] for r in rs)
+    return (lo >= -2**63 and hi <= 2**63 - 1) or (lo >= 0 and hi <= 2**64 - 1)
+
+
 def compile_for_bounds(text, name="m.emb", extra=None):
     from compiler.front_end import glue
     files = {name: text}
@@ -332,6 +354,21 @@ def run(ctx):
         m = gen_expr.ExprModule(ctx.rng, n_virtual=ctx.rng.randint(4, 10), depth=ctx.rng.choice([2, 3, 3, 4]),
                                 big=ctx.rng.random() < 0.4)
         sources.append(("gen:%d" % i, m.text(), "m.emb"))
+    # gate-boundary modules: every operator applied to operands that need int64_t / uint64_t / fit both,
+    # and to results just inside / outside the 64-bit ranges (one expression per module so that an
+    # expected rejection of one does not hide the others)
+    ops = ["%s < %s", "%s <= %s", "%s == %s", "%s != %s", "%s > %s", "%s >= %s", "%s + %s", "%s - %s", "%s * %s",
+           "$max(%s, %s)", "(fl ? %s : %s)", "(%s < %s) && fl", "$max(%s, %s, 0)"]
+    operands = ["s64", "u64", "s32", "u32", "u8", "9223372036854775807", "18446744073709551615", "(0-9223372036854775808)",
+                "(u64 - 1)", "(s64 + 1)", "(u32 * u32)", "(s32 * s32)"]
+    k = 0
+    picks = [(o, a, b) for o in ops for a in operands for b in operands]
+    ctx.rng.shuffle(picks)
+    for (o, a, b) in picks[: (600 if ctx.thorough() else 120)]:
+        txt = ('[$default byte_order: "LittleEndian"]\nstruct Gg:\n  0 [+8]  Int  s64\n  8 [+8]  UInt  u64\n  16 [+4]  Int  s32\n'
+               '  20 [+4]  UInt  u32\n  24 [+1]  UInt  u8\n  25 [+1]  bits:\n    0 [+1]  Flag  fl\n  let v = %s\n' % (o % (a, b)))
+        sources.append(("gate:%d" % k, txt, "m.emb"))
+        k += 1
     ec = expression_cases(ctx, sources)
     runner = fw.CoqCases(ctx, "exprs", HEADER, "run_expr", "run_expr_eqb",
                          "(list (ikind * option Z) * expr)", "(list (option ares) * option value * bool)", shard=250)
@@ -345,7 +382,14 @@ def run(ctx):
         a, b, obj = ec[idx]
         # the model (proved sound) disagrees with the implementation: look for an environment
         cex = search_counterexample(ctx, obj["ir"], obj["e"])
-        if cex:
+        from compiler.front_end import constraints as _cs
+        real_gate = _cs._integer_bounds_errors_for_expression(obj["e"], "m.emb") == []
+        if real_gate and not spec_fits_one_type(obj["e"]):
+            ctx.violation("gate-accepts-unrepresentable",
+                          "the 64-bit gate accepts an expression whose operands and result fit no single 64-bit type at %s %s"
+                          % (obj["label"], obj["where"]),
+                          dict(kind="expression", module=obj["text"], where=obj["where"], term=obj["term"], python=b), found_input=True)
+        elif cex:
             ctx.violation("bounds-unsound", "inferred bounds wrong at %s %s: %s" % (obj["label"], obj["where"], cex[1]),
                           dict(kind="expression", module=obj["text"], where=obj["where"], environment=cex[0],
                                message=cex[1], term=obj["term"], python=b), found_input=True)
